@@ -133,16 +133,19 @@ type Cfg struct {
 	Inherit bool `json:"inherit"`
 	// OptsLate (builder only, needs the help command, which re-propagates the options) - the options of a level are
 	// declared after its commands were created
-	OptsLate bool      `json:"optslate"`
-	Mode     int       `json:"mode"`
-	Lower    bool      `json:"lower"`
-	Prog     Tok       `json:"prog"` // the name the program appears under in help texts and completion (os.Args[0] or Self)
-	Self     bool      `json:"self"` // the name is given with Self(name, description) instead of coming from os.Args[0]
-	Desc     Tok       `json:"desc"`
-	Nodes    []NodeCfg `json:"nodes"`
-	Opts     []OptCfg  `json:"opts"`
-	Env      []EnvCfg  `json:"env"`
-	Sets     []SetCfg  `json:"sets"`
+	OptsLate bool `json:"optslate"`
+	// EnvLate (builder only) - the GetEnv modifiers are created before the environment variables are set and applied
+	// afterwards, when the options are declared: the variable is read when the option is declared
+	EnvLate bool      `json:"envlate"`
+	Mode    int       `json:"mode"`
+	Lower   bool      `json:"lower"`
+	Prog    Tok       `json:"prog"` // the name the program appears under in help texts and completion (os.Args[0] or Self)
+	Self    bool      `json:"self"` // the name is given with Self(name, description) instead of coming from os.Args[0]
+	Desc    Tok       `json:"desc"`
+	Nodes   []NodeCfg `json:"nodes"`
+	Opts    []OptCfg  `json:"opts"`
+	Env     []EnvCfg  `json:"env"`
+	Sets    []SetCfg  `json:"sets"`
 }
 
 type OrcEntry struct {
@@ -211,6 +214,7 @@ type Res struct {
 	RawHash string        `json:"rawhash"` // hash of everything observable incl. full messages and texts
 	Exits   []int         `json:"exits"`
 	SetErrs []string      `json:"seterrs"` // error kind of every SetValue call of the definition ("" = nil)
+	Aliased bool          `json:"aliased"` // the remaining list shares memory with the argument slice given to Parse
 	Raw     string        `json:"-"`       // everything observable, for run-to-run comparison (C20)
 }
 
